@@ -894,8 +894,8 @@ func (cs *Contracts) parse(path, data string) error {
 						// ghost at "line" set gfa(obj, "name", index) = expr : ghost array update
 						t, err := parseExpr(strings.TrimSpace(cl.Name[4:]))
 						call, ok := t.(ECall)
-						if err != nil || !ok || call.Fn != "gfa" || len(call.Args) != 3 {
-							return fail(fmt.Errorf("ghost set needs gfa(obj, \"name\", index) = expr"))
+						if err != nil || !ok || !((call.Fn == "gfa" && len(call.Args) == 3) || (call.Fn == "gf" && len(call.Args) == 2)) {
+							return fail(fmt.Errorf("ghost set needs gfa(obj, \"name\", index) = expr or gf(obj, \"name\") = expr"))
 						}
 						cl.Kind, cl.Target = "ghostset", &call
 					}
